@@ -194,20 +194,17 @@ impl FeelDate {
   }
   ///
   pub fn ym_duration(&self, other: &FeelDate) -> FeelYearsAndMonthsDuration {
-    let mut months;
-    if self.0 < other.0 {
-      months = 12 * (other.0 as i64 - self.0 as i64) + (other.1 as i64 - self.1 as i64);
-      if self.2 > other.2 {
-        months -= 1;
-      }
-      months *= -1;
+    // count whole months from the earlier to the later date, the sign tells the direction
+    let (earlier, later, sign) = if (other.0, other.1, other.2) <= (self.0, self.1, self.2) {
+      (other, self, 1)
     } else {
-      months = 12 * (self.0 as i64 - other.0 as i64) + (self.1 as i64 - other.1 as i64);
-      if other.2 > self.2 {
-        months -= 1;
-      }
+      (self, other, -1)
+    };
+    let mut months = 12 * (later.0 as i64 - earlier.0 as i64) + (later.1 as i64 - earlier.1 as i64);
+    if later.2 < earlier.2 {
+      months -= 1;
     }
-    FeelYearsAndMonthsDuration::new_m(months)
+    FeelYearsAndMonthsDuration::new_m(sign * months)
   }
   ///
   pub fn year(&self) -> i32 {
